@@ -35,7 +35,19 @@ func c20WorkerMain(_ []string) int {
 	lim := syscall.Rlimit{Cur: 12 << 30, Max: 12 << 30}
 	syscall.Setrlimit(syscall.RLIMIT_AS, &lim)
 	in := bufio.NewReaderSize(os.Stdin, 1<<20)
-	out := bufio.NewWriter(os.Stdout)
+	// the answers go to a private copy of the standard output; descriptor 1 itself is pointed at
+	// /dev/null, so that nothing the code under test prints (the helm root command installs a
+	// logger that writes there) can get between the answer lines
+	proto := os.Stdout
+	if fd, err := syscall.Dup(1); err == nil {
+		if null, err := os.OpenFile(os.DevNull, os.O_WRONLY, 0); err == nil {
+			if syscall.Dup2(int(null.Fd()), 1) == nil {
+				proto = os.NewFile(uintptr(fd), "answers")
+				os.Stdout = null
+			}
+		}
+	}
+	out := bufio.NewWriter(proto)
 	for {
 		line, err := in.ReadBytes('\n')
 		if len(line) > 0 {
@@ -140,7 +152,11 @@ func c20ViaWorker(e *c20ExploreC) c20Obs {
 				first = first[:400]
 			}
 			c20W = nil
-			return c20Obs{Class: "panic", Where: e.Target + " (worker died)", Panic: "fatal error in the worker process: " + first}
+			where := e.Target
+			if e.Note == c20KnownStackWitness {
+				where += " " + e.Note // the replay of the known finding K10 has a signature of its own
+			}
+			return c20Obs{Class: "panic", Where: where + " (worker died)", Panic: "fatal error in the worker process: " + first}
 		}
 		var obs c20Obs
 		if err := json.Unmarshal(l, &obs); err != nil {
